@@ -18,6 +18,7 @@ inductive GT where
   | segs (l : List Seg)
   | ifc (e : List Nat) (body : GTs) (tail : GTail)
   | loop (S V : List Nat) (body : GTs)
+  | iif (e : List Nat) (ts fs : Option (List Seg))
 inductive GTs where
   | nil
   | cons (b : GT) (r : GTs)
@@ -32,6 +33,7 @@ def printGT : GT → List Nat
   | .segs l => printSegs l
   | .ifc e body tail => IFOPEN ++ e ++ [34, 62] ++ printGTs body ++ printGTail tail
   | .loop S V body => LOOPW ++ (hdrOf S V ++ ([62] ++ (printGTs body ++ LOOPEND)))
+  | .iif e ts fs => printIif e ts fs
 def printGTs : GTs → List Nat
   | .nil => []
   | .cons b r => printGT b ++ printGTs r
@@ -46,6 +48,7 @@ def GT.toTpls : GT → List Tpl
   | .segs l => segsTpl l
   | .ifc e body tail => [.ifc ((some e, gtsTpl body) :: tailBrG tail)]
   | .loop S V body => [.loop S V (gtsTpl body)]
+  | .iif e ts fs => [.iif e (ts.map segsTpl) (fs.map segsTpl)]
 def gtsTpl : GTs → List Tpl
   | .nil => []
   | .cons b r => b.toTpls ++ gtsTpl r
@@ -66,6 +69,10 @@ theorem printGT_eq : ∀ (b : GT), printList b.toTpls = printGT b
   | .loop S V body => by
     simp only [GT.toTpls, printGT, printList, printTpl, printGTs_eq body, hdrOf, List.append_nil]
     cases S <;> simp [str, LOOPW, LOOPEND, List.append_assoc]
+  | .iif e ts fs => by
+    cases ts <;> cases fs <;>
+      simp [GT.toTpls, printGT, printList, printTpl, printIif, attrText, IIF1, TRUEA, FALSEA, str, printSegs_eq,
+        List.append_assoc]
 theorem printGTs_eq : ∀ (bs : GTs), printList (gtsTpl bs) = printGTs bs
   | .nil => rfl
   | .cons b r => by simp only [gtsTpl, printGTs, printList_append, printGT_eq b, printGTs_eq r]
@@ -87,6 +94,8 @@ def GT.ok : GT → Prop
   | .segs l => ∀ s ∈ l, s.ok
   | .ifc e body tail => (∀ x ∈ e, x ≠ 34) ∧ GTs.ok body ∧ GTail.ok tail
   | .loop S V body => HdrOk S V ∧ GTs.ok body
+  | .iif e ts fs => MathOk e ∧ (∀ x ∈ e, x ≠ 34) ∧ ValOk ts ∧ ValOk fs ∧ (ts ≠ none ∨ fs ≠ none) ∧
+      (printIif e ts fs).length < 65536
 def GTs.ok : GTs → Prop
   | .nil => True
   | .cons b r => GT.ok b ∧ GTs.ok r
@@ -102,6 +111,7 @@ def costGT : GT → Nat
   | .segs l => nTags l
   | .ifc _ body tail => 1 + costGTs body + costGTail tail
   | .loop _ _ body => 1 + costGTs body + 1
+  | .iif _ ts fs => 2 + nTagsVal ts + nTagsVal fs
 def costGTs : GTs → Nat
   | .nil => 0
   | .cons b r => costGT b + costGTs r
@@ -124,6 +134,7 @@ def tagsGT (cfg : ScanCfg R) (c : List Nat) (D : List LoopD) (dep : Nat) (p : Na
         (p + 6 + (hdrOf S V).length) body)
       { loopFG D p (trunc bits_LoopTag_Level dep) S V with
         endOff := p + 6 + (hdrOf S V).length + (printGTs body).length }]
+  | .iif e ts fs => [iifTag cfg c D p e ts fs]
 def tagsGTs (cfg : ScanCfg R) (c : List Nat) (D : List LoopD) (dep : Nat) (p : Nat) : GTs → List (Tag R)
   | .nil => []
   | .cons b r => tagsGT cfg c D dep p b ++ tagsGTs cfg c D dep (p + (printGT b).length) r
@@ -263,6 +274,12 @@ theorem parse_gt (cfg : ScanCfg R) (c : List Nat) (hn : c.length + 16 < 42949672
     rw [parseMain_step cfg c _ _ _ (by simp [stAtL]) (hd7.trans hstep), hbody_run,
       parseMain_step cfg c _ _ _ (by simp [stAtL]) ((hd8 _ rfl).trans hclose)]
     simp [tagsGT]
+  | .iif e ts fs, D, stk, pre, post, acc, fuel, o, m, o', m', hc, hok, hD, hnext, hfin => by
+    simp only [GT.ok] at hok
+    obtain ⟨he, he34, hts, hfs, hone, hsz⟩ := hok
+    simp only [printGT] at hc hfin
+    have := parse_iif cfg c hn D hD stk e ts fs pre post acc fuel o m o' m' hc he he34 hts hfs hone hsz hnext hfin
+    simpa [costGT, tagsGT, stAtL, stAtC] using this
 theorem parse_gts (cfg : ScanCfg R) (c : List Nat) (hn : c.length + 16 < 4294967296) :
     ∀ (bs : GTs) (D : List LoopD) (stk : List (Frame R)) (pre post : List Nat) (acc : List (Tag R)) (fuel o m o' m' : Nat),
       c = pre ++ (printGTs bs ++ post) → bs.ok → ChainD c D →
@@ -431,6 +448,16 @@ theorem costGT_le : ∀ (b : GT), costGT b ≤ (printGT b).length
   | .loop S V body => by
     have := costGTs_le body
     simp [costGT, printGT, LOOPW, LOOPEND]; omega
+  | .iif e ts fs => by
+    have h1 : nTagsVal ts ≤ tLen ts := by
+      cases ts with
+      | none => simp [nTagsVal, tLen]
+      | some l => have := nTags_le l; simp only [nTagsVal, tLen]; omega
+    have h2 : nTagsVal fs ≤ fLen fs := by
+      cases fs with
+      | none => simp [nTagsVal, fLen]
+      | some l => have := nTags_le l; simp only [nTagsVal, fLen]; omega
+    simp only [costGT, printGT, printIif_len]; omega
 theorem costGTs_le : ∀ (bs : GTs), costGTs bs ≤ (printGTs bs).length
   | .nil => by simp [costGTs]
   | .cons b r => by
